@@ -417,7 +417,7 @@ def finish(run):
         "transitions": trans,
         "traces_validated_against_impl": run.traces_validated,
         "samples": samples[:6] or [{"note": "no sample recorded"}],
-        "evaluations": sum(s["events"] for s in run.summaries),
+        "evaluations": max(sum(s["events"] for s in run.summaries), sum(s["behaviours"] for s in run.summaries)),
         "distinct_nontrivial": sum(s["nontrivial"] for s in run.summaries),
         "behaviours_replayed": sum(s["behaviours"] for s in run.summaries),
         "comparisons": sum(s["compared"] for s in run.summaries),
